@@ -100,6 +100,37 @@ THR_STUBS = ["ratelimit.Clock -> harness clock handing out pre-drawn non-decreas
 for pid in ["C05", "C06"]:
     specs[pid] = {"property": pid, "explanation": THR_EXPL, "assumptions": THR_ASSUME, "outside_claim": THR_OUT, "stubs_doc": THR_STUBS, "jobs": thr_jobs()}
 
+def aux_jobs(faults_only=None):
+    jobs = []
+    def J(name, entry, grid, gridt=None, tier=""):
+        j = {"name": name, "pkg": "motion", "harness": "motion", "entry": entry, "grid": grid, "stubs": DETECT_STUB, "noops": LOG_NOOP,
+             "native_rewrite": DETECT_REWRITE, "tier": tier}
+        if gridt:
+            j["grid_thorough"] = gridt
+        jobs.append(j)
+    base = {"fps": [1], "minS": [1], "maxS": [2], "prevS": [1], "T": [1]}
+    for fl in ([1, 0] if faults_only is None else [faults_only]):
+        tag = "faults" if fl else "nofaults"
+        J(f"step_{tag}", "ZZ_AUX_step", {"N": [1, 2, 3], "CR": [0, 1], "FAULTS": [fl]}, {"N": [1, 2, 3, 4, 5, 6], "CR": [0, 1], "FAULTS": [fl]})
+        g = dict(base); g.update({"K": [6], "CR": [0, 1], "FAULTS": [fl]})
+        gt = dict(base); gt.update({"K": [9], "CR": [0, 1], "FAULTS": [fl]})
+        J(f"bmc_{tag}", "ZZ_AUX_bmc", g, gt)
+        g2 = {"fps": [2], "minS": [0], "maxS": [1], "prevS": [0], "T": [2], "K": [8], "CR": [1], "FAULTS": [fl]}
+        J(f"bmc2_{tag}", "ZZ_AUX_bmc", g2, None, "thorough")
+    return jobs
+
+AUX_EXPL = ("Bounded symbolic verification of motion/motionprocessor.go (Process, process, processConstantRecorder, stopConstantRecorder, processSnapshot, start/stopRecording, recordPreTriggerFrames) "
+            "with three monitored sinks. Step lemma: from an arbitrary state satisfying Inv_MP extended with the continuous/test-recorder invariant (sink open iff crFrames>0 / SnapshotRecording, counters in range), one event "
+            "in {valid frame, bad frame, reset} with a pending test-recording request and, for C12, arbitrary failures of every start / k-th write / stop / disk check on each sink. BMC: K events incl. test-recording requests from the real constructor. "
+            "Monitor semantics follow the real CPTVFileRecorder: a failed start leaves the sink closed, any stop closes it (even when it returns an error), a failed write leaves it open. Reachable panics are reported as violations.")
+specs["C12"] = {"property": "C12", "explanation": AUX_EXPL, "assumptions": COMMON_ASSUME + [
+    "sink failure model = return values of the recorder.Recorder interface; the real CPTVFileRecorder's write-after-close nil dereference is tied to the protocol violation by the C12 wiring job in package main (when present)",
+    "a redundant StopRecording on a closed sink is not counted as a violation (the statement restricts writes and starts)"],
+    "outside_claim": MP_OUT[:4] + ["ring capacities above the grid", "faults inside go-cptv (I/O)"], "stubs_doc": MP_STUBS, "jobs": aux_jobs(1) + aux_jobs(0)[:2]}
+specs["C17"] = {"property": "C17", "explanation": AUX_EXPL + " For C17 the no-fault, no-bad-frame instances are used: the continuous sink receives every accepted frame exactly once in order, a file is closed exactly when it holds max-secs*fps+1 frames, independent of motion bit, window gate, disk check and resets; a pending request starts a test recording with the next processed frame, which is closed after exactly 21 frames (induction on snapshotFrames); the C01-C04 assertions on the motion sink hold for every test-recording state (ZZ_MP_step is proved for arbitrary StartSnapshot/SnapshotRecording in the C01 check).",
+    "assumptions": COMMON_ASSUME + ["non-overlapping test-recording requests, no storage faults, no bad frames (the property's quantifier)", "throttling independence: the continuous sink is handed to NewMotionProcessor unwrapped (wiring job in package main, when present)"],
+    "outside_claim": MP_OUT[:4] + ["deleteExcessRecordings / statfs (I/O)", "SetAsConstantRecorder directory handling (I/O)"], "stubs_doc": MP_STUBS, "jobs": aux_jobs(0)}
+
 os.makedirs("/verif/checks", exist_ok=True)
 for pid, sp in specs.items():
     json.dump(sp, open(f"/verif/checks/{pid}.json", "w"), indent=1)
